@@ -445,7 +445,10 @@ def splice_fn(text, spec=None, ret=None, loops=None, before=None, after=None, re
             invtxt = "\n/*@LOOP-BEGIN %d*/\n" % k + "\n".join(inv) + "\n/*@LOOP-END*/\n"
             if k in fl:
                 # R2: `for PAT in EXPR { BODY }` -> `{ let mut IT = shim_into_iter(EXPR); loop INV { match shim_next(&mut IT) { Some(PAT) => { BODY } None => { break; } } } }`
-                itname = fl[k]
+                fparts = fl[k].split()
+                itname = fparts[0]
+                shim_into = fparts[1] if len(fparts) > 1 else "shim_into_iter"
+                shim_nxt = fparts[2] if len(fparts) > 2 else "shim_next"
                 if ct[kwi][1] != "for":
                     raise Undecided(f"R2: loop #{k} in {sel} is not a `for` loop any more")
                 # find `in` at depth 0 between for and body
@@ -462,7 +465,7 @@ def splice_fn(text, spec=None, ret=None, loops=None, before=None, after=None, re
                 pat = text[ct[kwi + 1][2]:ct[kin - 1][3]]
                 expr = text[ct[kin + 1][2]:ct[lbi - 1][3]]
                 le = match_brace(ct, lbi)
-                head = "let mut %s = shim_into_iter(%s); loop %s { match shim_next(&mut %s) { Some(%s) => " % (itname, expr, invtxt, itname, pat)
+                head = "let mut %s = %s(%s); loop %s { match %s(&mut %s) { Some(%s) => " % (itname, shim_into, expr, invtxt, shim_nxt, itname, pat)
                 edits.append((ct[kwi][2], head, ct[lbi][2] - ct[kwi][2]))
                 edits.append((ct[le][3], " None => { break; } } }", 0))
                 log.append({"rule": "R2", "item": sel, "from": f"for {pat} in {expr} {{..}}", "to": f"let mut {itname} = shim_into_iter({expr}); loop {{ match shim_next(&mut {itname}) {{ Some({pat}) => {{..}} None => break }} }}", "count": 1})
@@ -549,7 +552,8 @@ def compose(template_text, repo_root, read_file):
                     loopends.append((-int(s.split()[1]), cur))
                 elif s.startswith("//@FORLOOP"):
                     parts = s.split()
-                    forloops.append((int(parts[1]), parts[2]))
+                    # //@FORLOOP k itname [into_shim next_shim]
+                    forloops.append((int(parts[1]), " ".join(parts[2:])))
                     cur = None
                 elif s.startswith("//@BEFORE") or s.startswith("//@AFTER"):
                     parts = s.split(None, 2)
